@@ -109,6 +109,17 @@ func runC04(e *Env) {
 	mvrng := e.Rng.Fork().Fork().Fork().Fork() // the multi-variable statement generator's stream (c04multi.go)
 	obsrng := e.Rng.Fork().Fork().Fork().Fork().Fork() // template strings and nested loops with observed runs (c04obs.go)
 	litrng := e.Rng.Fork().Fork().Fork().Fork().Fork().Fork() // list literals of every length and membership tests (c04lit.go)
+	hostrng := e.Rng.Fork().Fork().Fork().Fork().Fork().Fork().Fork() // histories of host invocations on one VM (c04host.go); forked last: the other streams stay as they were
+	swrng := e.Rng.Fork().Fork().Fork().Fork().Fork().Fork().Fork().Fork() // switch statements with empty clauses in every statement position (c04switch.go)
+	if only := os.Getenv("VERIF_C04_ONLY"); only != "" { // development aid: one part of the check alone
+		switch only {
+		case "host":
+			c04Host(e, hostrng)
+		case "switch":
+			c04Switch(e, swrng)
+		}
+		return
+	}
 	for i := 0; i < nProg; i++ {
 		r := rng.Fork()
 		o := GenOpts{MaxStmts: 3 + r.Intn(3), MaxDepth: 2 + r.Intn(3), Budget: 60 + r.Intn(200), Funcs: true, Closures: true,
@@ -123,6 +134,8 @@ func runC04(e *Env) {
 	c04Multi(e, mvrng)
 	c04Obs(e, obsrng)
 	c04Lit(e, litrng)
+	c04Switch(e, swrng)
+	c04Host(e, hostrng)
 	c04Directed(e)
 	c04FragDeep(e)
 	// repository scripts
